@@ -122,6 +122,22 @@ def rejects(ctx, cfg):
     ctx.ensure("inverse_rejects", r.raised(ValueError, AssertionError, RuntimeError, IndexError), note="returned a value" if r.ok else repr(r.exc))
     r = ctx.call(enc.calculate_syndrome, y)
     ctx.ensure("syndrome_rejects", r.raised(ValueError, AssertionError, RuntimeError, IndexError), note="returned a value" if r.ok else repr(r.exc))
+    # layouts whose LAST dimension is not a multiple of the block size although the total number of elements is (a size check
+    # on numel, or a flatten before the check, accepts them and glues rows into pseudo-blocks)
+    def glued(w):
+        return [sh for sh in ((w, 1), (2, w // 2) if w % 2 == 0 and w > 2 else None, (w, w + 1) if w <= 8 else None, (2, 1, w // 2) if w % 2 == 0 and w > 2 else None) if sh]
+
+    for sh in glued(n):
+        tag = "x".join(map(str, sh))
+        yy = ctx.bits(f"y_{tag}", sh)
+        for nm, f in (("inverse", enc.inverse_encode), ("syndrome", enc.calculate_syndrome), ("extract", enc.extract_message)):
+            r = ctx.call(f, yy)
+            ctx.ensure(f"{nm}_rejects_{tag}", r.raised(ValueError, AssertionError, RuntimeError, IndexError), note="returned a value" if r.ok else repr(r.exc))
+    if k > 1:
+        for sh in glued(k):
+            tag = "x".join(map(str, sh))
+            r = ctx.call(enc.forward, ctx.bits(f"x_{tag}", sh))
+            ctx.ensure(f"forward_rejects_{tag}", r.raised(ValueError, AssertionError, RuntimeError, IndexError), note="returned a value" if r.ok else repr(r.exc))
 
 
 @obligation(
@@ -175,3 +191,41 @@ def right_inverse_all_small(cfg):
             bad = {"G": rows, "R": Rl}
             break
     yield "G_R_is_identity", bad is None, f"all {count} full-rank binary {k}x{n} matrices" if bad is None else f"fails for G = {bad['G']}: R = {bad['R']}"
+
+
+# ================================================================================================ input representation (bounded)
+@obligation(
+    "C04.input_dtypes",
+    function=F + "linear_block_code.py:LinearBlockCodeEncoder.inverse_encode; " + F + "linear_block_code.py:LinearBlockCodeEncoder.forward; " + F + "hamming_code.py:HammingCodeEncoder.inverse_encode; "
+    + F + "reed_muller_code.py:ReedMullerCodeEncoder.inverse_encode; " + F + "base.py:BaseBlockCodeEncoder.extract_message; " + F + "systematic_linear_block_code.py:SystematicLinearBlockCodeEncoder.project_word",
+    configs=lambda tier: [c for c in codes.catalogue(tier) if not codes.rm_search_heavy(c)],
+    kind="custom",
+    engine="standin",
+)
+def input_dtypes(spec, cfg, tier, seed):
+    """bounded: the round trip inverse(forward(m)) for messages / words carried as int64, int32, uint8, bool, float64, float16
+    gives what it gives for float32 (contracts/dtypes.py); words with one flipped bit included (the correcting inverses)"""
+    from . import dtypes as DT
+
+    enc, err = codes.try_build(cfg)
+    if enc is None:
+        return []
+    k, n = enc.generator_matrix.shape
+    rng = DT.rng_for(cfg, seed, "c04")
+    g = torch.Generator().manual_seed(rng.getrandbits(40))
+    cases = []
+    for shape in ((k,), (3, k), (2, 2 * k)):
+        m = torch.randint(0, 2, shape, generator=g).float()
+        cases.append((f"inverse_encode(forward(m)) m{shape}", lambda: (lambda x: enc.inverse_encode(enc(x))), (m,)))
+        cases.append((f"extract_message(forward(m)) m{shape}", lambda: (lambda x: enc.extract_message(enc(x))), (m,)))
+        if hasattr(enc, "project_word"):
+            cases.append((f"project_word(forward(m)) m{shape}", lambda: (lambda x: enc.project_word(enc(x))), (m,)))
+        with torch.no_grad():
+            y = enc(m).clone()
+        for _ in range(3):
+            w = y.clone()
+            pos = rng.randrange(n)
+            w[..., pos] = 1 - w[..., pos]
+            cases.append((f"inverse_encode(word with bit {pos} flipped) {tuple(w.shape)}", lambda: enc.inverse_encode, (w,)))
+            cases.append((f"extract_message(word with bit {pos} flipped) {tuple(w.shape)}", lambda: enc.extract_message, (w,)))
+    return DT.run("C04", spec, cfg, tier, seed, cases, DT.BIT_DTYPES, "round trip and inverse of single-error words, layouts (k), (3,k), (2,2k)")
